@@ -59,9 +59,17 @@ pub mod class {
     pub const ANY: u32 = !0;
 }
 
+#[allow(clippy::declare_interior_mutable_const)]
+const PTH0: AtomicUsize = AtomicUsize::new(0);
+/// pthread_t of the harness threads by harness thread id (for the thread CPU clock).
+pub static THREAD_PTH: [AtomicUsize; 64] = [PTH0; 64];
+
 pub fn set_thread(tid: u32, class: u32) {
     TID.with(|t| t.set(tid));
     CLASS.with(|c| c.set(class));
+    if (tid as usize) < 64 {
+        THREAD_PTH[tid as usize].store(unsafe { libc::pthread_self() } as usize, Ordering::SeqCst);
+    }
 }
 
 #[inline]
